@@ -80,7 +80,7 @@ func c03Body(c *ev.Ctx) {
 		// block), 18 -> exactly one block, 19 -> two blocks, 51 -> 268 bytes (second boundary)
 		batches := []int{1, 2, 16, 17, 18, 19, 50, 51, 52}
 		if quick {
-			batches = []int{1, 16, 17, 18, 19, 51}
+			batches = []int{1, 16, 17, 18, 19, 51, 52} // 52: 272 bytes = the packing starts its third block
 		}
 		add := func(b delBatch, why string) {
 			cases = append(cases, c03Case{Del: &c02Case{Kind: "full-engine-bn", B: &b}, Why: why})
@@ -151,13 +151,19 @@ func c03Body(c *ev.Ctx) {
 			b.Hash = h.String()
 			return b
 		}
-		for _, n := range []int{1, 2, 3} {
+		for _, n := range []int{1, 2, 3, 7} { // 7: 292 bytes = three Keccak blocks
+			if n > 4 {
+				d = 3
+			}
 			for vi, v := range FE {
 				if quick && n > 2 && vi%2 != 0 {
 					continue
 				}
+				if n > 4 && vi%6 != 0 {
+					continue
+				}
 				for _, start := range []int{0, 1} {
-					if start+n > 4 || (quick && start == 1 && n != 2) {
+					if start+n > 1<<uint(d) || (quick && start == 1 && n != 2) {
 						continue
 					}
 					comms := make([]*big.Int, n)
